@@ -17,6 +17,7 @@
 //!   wbs=N   h1_write_buffer_size (default 32768)        seg=N  max bytes per poll_read (default 1024, 0 = fill everything offered)
 //!   wseg=N  max bytes per poll_write (default: no cap)  hc=0|1 h1_allow_half_closed (default 1)
 //!   +[K*]gH            K GET requests, head padded to H bytes
+//!   +[K*]m             K minimal requests `A / HTTP/1.1\n\n` (14 bytes, bare LF)
 //!   +[K*]lH:N          K POST requests, head H bytes, content-length N followed by N body bytes
 //!   +[K*]kH:CxM        K chunked POST requests, head H bytes, M chunks of C bytes, then the last-chunk
 //!   +KH:CxM            chunked POST that never terminates (M chunks, no last-chunk)
@@ -100,6 +101,8 @@ request reached the service or a 431/400 was produced; distinct = distinct (case
 #[derive(Clone, Debug, PartialEq)]
 enum Item {
     Get { h: usize },
+    /// the shortest request httparse accepts: `A / HTTP/1.1\n\n` (14 bytes)
+    Min,
     Len { h: usize, n: usize },
     Chunked { h: usize, c: usize, m: usize, term: bool },
     Junk { n: usize },
@@ -182,6 +185,7 @@ fn parse_item(s: &str, out: &mut Vec<Item>) -> Option<()> {
     let (k, rest) = s.split_at(s.len().min(1));
     let it = match k {
         "g" => Item::Get { h: rest.parse().ok()? },
+        "m" if rest.is_empty() => Item::Min,
         "l" => {
             let (h, n) = rest.split_once(':')?;
             Item::Len { h: h.parse().ok()?, n: n.parse().ok()? }
@@ -357,6 +361,10 @@ fn build_input(items: &[Item]) -> Option<(Vec<u8>, Vec<Lay>)> {
                 push_head(&mut buf, "GET", h - GET_BASE, "");
                 debug_assert_eq!(buf.len() - start, h);
                 lays.push(Lay { start, head: h, end: buf.len(), body: Body::None, unparsable: false });
+            }
+            Item::Min => {
+                buf.extend_from_slice(b"A / HTTP/1.1\n\n");
+                lays.push(Lay { start, head: 14, end: buf.len(), body: Body::None, unparsable: false });
             }
             Item::Len { h, n } => {
                 if h < len_base(n) || n == 0 {
